@@ -1,5 +1,26 @@
+(* Correspondence for C04.  The leaf names only OCSP responders.  Spec side (code 2) is the
+   property text via the theorems of Properties/C04.v: server_check = COk <-> an authentic,
+   current, Good answer (C04_server_ok_iff), = CRevoked <-> an authentic current Revoked one. *)
 From NCG Require Export Run.Rev.
 Definition case := rcase.
+
+Definition sclass_eqb (a b : sclass) : bool :=
+  match a, b with COk, COk | CRevoked, CRevoked | CUnknownStatus, CUnknownStatus | CError, CError => true | _, _ => false end.
+
 Definition check_case (c : rcase) : verdict :=
-  if agrees c then (r_id c, 0, 0) else (r_id c, 1, 0).
+  if r_panicked c then (r_id c, 2, 9) else
+  match r_chain c, leaf_result (r_impl c) with
+  | leaf :: _, Some r =>
+      let w := case_world c in
+      let sc := server_check (w_ocsp w) (w_now w) (r_st c) in
+      let first := find (fun u => decisive (sc u)) (c_ocsp leaf) in
+      (* OK without any responder having given an authentic current Good answer *)
+      if rres_eqb r ROK && negb (existsb (fun u => sclass_eqb (sc u) COk) (c_ocsp leaf)) then (r_id c, 2, 1)
+      (* the first decisive answer says Revoked but the result is not Revoked *)
+      else if match first with Some u => sclass_eqb (sc u) CRevoked | None => false end && negb (rres_eqb r RRevoked) then (r_id c, 2, 2)
+      (* OK although the first decisive answer was not the Good one *)
+      else if rres_eqb r ROK && negb (match first with Some u => sclass_eqb (sc u) COk | None => false end) then (r_id c, 2, 3)
+      else if agrees c then (r_id c, 0, 0) else (r_id c, 1, 0)
+  | _, _ => if agrees c then (r_id c, 0, 0) else (r_id c, 1, 0)
+  end.
 Definition check_all := collect check_case.
